@@ -136,7 +136,9 @@ def submitted_futures_are_tracked_and_tagged(ctx):
     if len(cs) == 1 and cs[0].args:
         w = q.resolve_local(adc, cs[0].args[0])
         inner_fn = {n.name: n for n in ast.walk(adc.node) if isinstance(n, ast.FunctionDef) and n is not adc.node}
-        if isinstance(w, ast.Name) and w.id in inner_fn:
+        if isinstance(w, ast.Lambda):
+            ok = _wrapper_calls(w.body, adc.params[1])
+        elif isinstance(w, ast.Name) and w.id in inner_fn:
             ok = _wrapper_calls(inner_fn[w.id], adc.params[1])
         elif isinstance(w, ast.Call):
             r = ctx.r.resolve(w, adc, _count=False)
